@@ -264,8 +264,13 @@ class Type2Tag(Tag):
             if len(data) < 255:
                 tag_memory[offset+1] = len(data)
             else:
-                tag_memory[offset+1] = 0xFF
                 tag_memory[offset+2:offset+4] = pack(">H", len(data))
+                if (offset + 1) // 4 != (offset + 3) // 4:
+                    # The length field crosses a page boundary. Commit
+                    # the length bytes before the 0xFF marker, otherwise
+                    # an interrupted write leaves 0xFF with stale bytes.
+                    tag_memory.synchronize()
+                tag_memory[offset+1] = 0xFF
             tag_memory.synchronize()
 
     #
